@@ -176,7 +176,7 @@ theorem stdout_only_data (w : World) (h : GoodFd w.fd) (hf : w.perInputFlush = t
     split
     · simp [exitWith, Run.stdout, Out.init, FdSt.init, libOutput, outputsFrom]
     · rcases mainLoop_good w h hf cf to (inputPaths paths) with ⟨e1, _, e3, _⟩ |
-        ⟨e1, pre, p, post, s', _, _, _, _, _, (⟨c1, c2⟩ | ⟨input, q, c1, c2, c3⟩)⟩
+        ⟨e1, pre, p, post, s', _, _, _, _, _, (⟨c1, c2⟩ | ⟨input, q, _, c1, c2, c3⟩)⟩
       · exact ⟨by rw [e3]; exact List.prefix_refl _, fun _ => e3⟩
       · refine ⟨by rw [c1, c2]; exact List.prefix_refl _, fun h0 => ?_⟩
         rw [e1] at h0; simp at h0
